@@ -1,7 +1,6 @@
 SPECIFICATION Spec
 CONSTANTS
-  Mode = "monitor"
-  Known = {}
+  Mode = "full"
   NC = 7
 CONSTRAINT HW
 INVARIANT Inv
